@@ -191,8 +191,12 @@ def check_steady(ctx, cuqi, c, idx):
         e[k] = h
         try:
             d = (np.asarray(_quiet(lambda: model.forward(th + e)), float) - np.asarray(_quiet(lambda: model.forward(th - e)), float)) / (2 * h)
-        except Exception:
-            continue   # a neighbouring system may be singular
+        except Exception as e_fd:
+            # |det A(theta)| >= 1 on the integer lattice of the instance and h = 1e-5: the neighbouring systems are regular,
+            # so forward must not fail there when it succeeded at theta
+            ctx.mismatch(key + "/model_raises_fd", c, "PDEModel.forward raised %r at theta +/- 1e-5 e_%d although it returns at theta"
+                         % (e_fd, k), fwd_exp)
+            continue
         if not _close(d, J_exp[:, k], 1e-5):
             ctx.mismatch(key + "/model_jacobian_fd", c, "finite differences of PDEModel.forward disagree with the exact Jacobian of "
                          "Observe o Solve o Assemble", J_exp[:, k], d)
